@@ -119,7 +119,7 @@ def to_coq(c):
     if o.get("crash") or o.get("outhex"):
         return None
     op = c["op"]
-    if op in ("file", "gort", "runes", "reuse", "targets", "lexfn", "hold", "bigrt"):
+    if op in ("file", "gort", "runes", "reuse", "targets", "lexfn", "hold", "bigrt", "deep", "reread"):
         return "CUtf8 [] []"      # compared by the oracle only
     if op in ("rstream", "rseries") and c.get("rmode") in (6, 7):
         return "CUtf8 [] []"      # a failing reader: oracle only (usage_oracle)
@@ -514,6 +514,14 @@ def usage_oracle(c):
         if o.get("note"):
             return op, o["note"]
         return None
+    if op == "deep":
+        if o.get("note"):
+            return "deep-nesting", o["note"]
+        return None
+    if op == "reread":
+        if o.get("note"):
+            return "file-reread", o["note"]
+        return None
     if op == "bigrt":
         if o.get("note") or not o.get("ok"):
             return "token-size:%s" % c.get("pre"), o.get("note") or "failed"
@@ -573,6 +581,27 @@ def hold_oracle(ck, cases, k):
                  {"batch": batch, "changed": un, "expected": "a result stays what was returned until its owner changes it",
                   "observed": o})
     return True
+
+
+def order_oracle(c):
+    """Repeated keys: JSON objects are unordered, so a re-ordering of distinct keys keeps the meaning; but of a key
+    that occurs more than once in an object the last occurrence wins: the occurrence that is last in the source
+    must be last in the emitted JSON.  c["order"] / obs["order"]: for every object and every repeated key of it,
+    the number of occurrences and the value of the last one (harness keyOrderJSON)."""
+    o = c["obs"]
+    if not c.get("order") or not o.get("ok") or "E(" in c["order"]:
+        return None
+    got_order = o.get("order")
+    if got_order is None and c["op"] in ("tojson", "unmarshal") and o.get("valid"):
+        got_order = ""          # the emitted JSON has no repeated key at all
+    if got_order is not None and got_order != c["order"]:
+        a, b = c["order"].split(" "), got_order.split(" ")
+        diff = [x for x in a if x not in b][:1] or a[:1]
+        got = [y for y in b if diff and y.split("=<")[0] == diff[0].split("=<")[0] and y not in a][:1]
+        return "dup-key-order", ("a key that occurs more than once in an object - the last occurrence wins: in the source "
+                                 "it is %s, in the emitted JSON %s (%s)" % (
+                                     diff[0][:200] if diff else "?", got[0][:200] if got else b[:1], c.get("src", "")[:100]))
+    return None
 
 
 def file_oracle(c):
